@@ -488,4 +488,16 @@ theorem record_call_sites_are_the_modelled_ones :
     Gen.PluginCalls.removeTower = [("main", "abandon_tower", "")] := by
   decide
 
+/-- **the_retrier_records_before_it_releases** (tie to the source, regenerated on every run): in `Retrier::run` the
+record of the tower's answer is written first — the receipt, or the invalid record — and the pending copy is released
+after it, in both branches. Each of the four calls is its own committed transaction, so the client can die between
+any two of them; with this order what it finds on restart is the appointment recorded twice (answered and still
+pending: it is sent again), never not at all. The model's `sendAll` has the same order and `Keeps` is proved at every
+one of these transaction boundaries (`Lemmas/Plugin`); the other order loses the appointment (harness scenarios
+`kill-between-writes-*`). -/
+theorem the_retrier_records_before_it_releases :
+    Gen.PluginCalls.retrierRunOrder =
+      ["add_appointment_receipt", "remove_pending_appointment", "add_invalid_appointment", "remove_pending_appointment"] := by
+  decide
+
 end Teos.C05
